@@ -21,6 +21,7 @@ EXPLANATION = (
     ' (O8) a hand-made memo decorator on the normalisation path keys on every argument; (O9) the benchmark compares the normal forms of the same row.'
     ' (O10) every value wc_similarity returns is a similarity, a constant in [0, 1] or a min / max of such values; a start value outside the interval must be replaced on every path (loops entered from outside run at least once).'
     " (O11) the benchmark judges each row by that row's similarity (pandas label-alignment rule)."
+    ' (O12) the benchmark reads the reactions it compares as written (shared with C02-T8). (O13) in the two-molecule fingerprint helper every statement that reads one molecule has its mirror image for the other (compared up to the names it is bound to).'
 )
 ASSUMPTIONS = ["Python's list.sort is stable and orders tuples lexicographically"]
 
@@ -208,14 +209,16 @@ def rule_o13(ctx) -> None:
                     node.id = b
                 elif node.id == b:
                     node.id = a
-                elif node.id.endswith("1"):
-                    node.id = node.id[:-1] + "2"
-                elif node.id.endswith("2"):
-                    node.id = node.id[:-1] + "1"
                 return node
 
+        def core(x):
+            """what the statement computes, without the name it is bound to (local names are the author's choice)"""
+            return x.value if isinstance(x, (ast.Assign, ast.AugAssign)) else x
+
+        texts_ = {unparse(core(x)) for x in stmts}
+
         def mirror(x) -> str:
-            return unparse(_Swap().visit(_copy.deepcopy(x)))
+            return unparse(_Swap().visit(_copy.deepcopy(core(x))))
 
         for x in stmts:
             names = {n.id for n in ast.walk(x) if isinstance(n, ast.Name)}
